@@ -41,11 +41,18 @@ def rank_data_contract(vector):
 class PredictWorld:
     """symbolic game + executions of the real predict_* of one model on it"""
 
-    def __init__(self, model, sizes, identical=(), feas_timeout_ms=300, stub_rank=True, safety=False):
+    def __init__(self, model, sizes, identical=(), feas_timeout_ms=300, stub_rank=True, safety=False, generic=False):
         """identical: pairs (i, k) of teams that carry the same symbols (team k reuses team i's);
-        stub_rank: _rank_data is replaced by its contract (no forking)"""
-        self.model, self.sizes = model, tuple(sizes)
-        self.S = extract.Scratch(model)
+        stub_rank: _rank_data is replaced by its contract (no forking);
+        generic: every team has a symbolic number of members (pyvc/teams.py): `sizes` must be (1,)*n,
+        the one listed member of a team is its arbitrary member, the aggregates are symbols"""
+        self.model, self.sizes, self.generic = model, tuple(sizes), generic
+        if generic:
+            from .. import teams as T
+            self.S = extract.Scratch(model, transforms={extract.MODEL_FILES[model]: (T.FoldLoops(),)})
+            self.S.ns.update(T.REBINDS)
+        else:
+            self.S = extract.Scratch(model)
         game.stub_phi_real(self.S)
         if stub_rank:
             self.S.ns["_rank_data"] = rank_data_contract
@@ -60,6 +67,17 @@ class PredictWorld:
         self.m, self.params = game.mk_model(c, self.S)
         self.beta = self.params["beta"]
         self.prior = []
+        self.agg = self.Ls = None
+        if self.generic:
+            from .. import teams as T
+            self.gteams = []
+            for i in range(len(self.sizes)):
+                t = T.SymTeam(c, self.S.rating_cls, self.alias.get(i, i), sigma_pos=False)
+                self.gteams.append(t)
+                self.prior.append([(t.g.mu, t.g.sigma)])
+            self.agg = ([t.theta for t in self.gteams], [t.s for t in self.gteams])
+            self.Ls = [T.t_len(t) for t in self.gteams]
+            return
         for i, n in enumerate(self.sizes):
             src = self.alias.get(i, i)
             row = []
@@ -93,6 +111,22 @@ class PredictWorld:
         alias = {k: i}: slot k holds the *same list object* as slot i"""
         R = self.S.rating_cls
         ts = []
+        if self.generic:
+            import copy as _copy
+            for i, g in enumerate(self.gteams):
+                t = _copy.deepcopy(g)          # fresh objects, the same symbols
+                t.root = t
+                if bump is not None and bump[0] == i:
+                    # one member's mu raised by d: the team total grows by d (the arbitrary member stands
+                    # for every member, so it is left alone; predictions read the aggregates only)
+                    t.theta = t.theta + bump[2]
+                ts.append(t)
+            if alias:
+                for k, i in alias.items():
+                    ts[k] = ts[i]
+            if order is not None:
+                ts = [ts[k] for k in order]
+            return ts
         for i, row in enumerate(self.prior):
             t = []
             for j, (mu, sg) in enumerate(row):
@@ -120,9 +154,10 @@ class PredictWorld:
         with active(self.ctx):
             X = SymPX()
             f = {"win": PS.win, "draw": PS.draw, "rank": PS.rank_probabilities}[which]
+            kw = {"agg": self.agg, "sizes": self.Ls} if self.generic else {}
             if details is not None:
-                return f(self.prior, self.beta if beta is None else beta, X, details=details)
-            return f(self.prior, self.beta if beta is None else beta, X)
+                kw["details"] = details
+            return f(self.prior, self.beta if beta is None else beta, X, **kw)
 
     def run_second_instance(self, op, **kw):
         """another instance of the same model class with its own beta, called after this
